@@ -33,7 +33,7 @@ def scenarios(draw):
     delta = S.DELTAS[S.DATA_DEFAULT_STRATEGY[dt]]
     mode = src.choice(["tag", "read_id", "file", "file_name"])
     ng = src.int(1, 8)
-    groups = src.shuffle(GROUP_POOL)[:ng]
+    groups = src.shuffle(GROUP_POOL + (["gr\u00fcn", "\u03b2-cells"] if mode == "file" else []))[:ng]
     nfiles = 1
     if mode == "file_name":
         nfiles = src.int(2, 4)
